@@ -51,6 +51,7 @@ type tcpConnSpec struct {
 	TFailAfter int      `json:"target_write_fails_after,omitempty"` // the connection to the target accepts this many bytes, then every write fails (monitor-only cases)
 	ConnectOK  bool     `json:"connect_ok"`
 	TOut       [2]int   `json:"tout"`
+	TLate      [2]int   `json:"tlate,omitempty"` // a second block the target sends only after the handshake timeout has long passed (the client is silent and keeps the connection open)
 	TFirst     bool     `json:"target_first,omitempty"`
 	TFinFirst  bool     `json:"target_fin_first,omitempty"` // the target sends, half-closes at once; only then the client uploads
 	Seg        int      `json:"seg"`                        // 0 one write, 1 bytewise head, 2 random pieces
@@ -323,6 +324,7 @@ func runTCPConn(auth service.StreamAuthenticateFunc, sp *tcpConnSpec) (ob tcpObs
 	}
 	ob.Port = port
 	tout := genBytes(sp.TOut[0], uint32(sp.TOut[1]))
+	tStart := time.Now()
 	var tmu sync.Mutex
 	targetDone := make(chan struct{})
 	if !sp.ConnectOK {
@@ -358,18 +360,26 @@ func runTCPConn(auth service.StreamAuthenticateFunc, sp *tcpConnSpec) (ob tcpObs
 				ob.TargetGot = buf.Bytes()
 				tmu.Unlock()
 			}
+			late := func() {
+				if sp.TLate[0] > 0 {
+					time.Sleep(tcpT + 250*time.Millisecond - time.Since(tStart))
+					c.Write(genBytes(sp.TLate[0], uint32(sp.TLate[1])))
+				}
+			}
 			if sp.TFinFirst {
 				c.Write(tout)
 				c.(*net.TCPConn).CloseWrite()
 				read()
 			} else if sp.TFirst {
 				c.Write(tout)
+				late()
 				read()
 				c.(*net.TCPConn).CloseWrite()
 			} else {
 				rd := make(chan struct{})
 				go func() { read(); close(rd) }()
 				c.Write(tout)
+				late()
 				<-rd
 				c.(*net.TCPConn).CloseWrite()
 			}
@@ -647,8 +657,8 @@ func tcpConnTerm(sp *tcpConnSpec, port int) string {
 		}
 		kind = fmt.Sprintf("CHonest %d %d %d %d %d %s %s %d", sp.C, sp.S, sp.Seed, sp.AKind, port, cListT("(N * N)", cs), cBool(sp.Coalesce), corrupt)
 	}
-	return fmt.Sprintf("{| k_kind := %s; k_fin := %s; k_validate := %s; k_connect_ok := %s; k_tout := (%d, %d) |}",
-		kind, cBool(sp.Fin), cBool(sp.Validate), cBool(sp.ConnectOK), sp.TOut[0], sp.TOut[1])
+	return fmt.Sprintf("{| k_kind := %s; k_fin := %s; k_validate := %s; k_connect_ok := %s; k_tout := (%d, %d); k_tlate := (%d, %d) |}",
+		kind, cBool(sp.Fin), cBool(sp.Validate), cBool(sp.ConnectOK), sp.TOut[0], sp.TOut[1], sp.TLate[0], sp.TLate[1])
 }
 
 // boundNotListening reserves a TCP port with a socket that is bound but not listening:
